@@ -168,7 +168,10 @@ class ConcHistory(histories.History):
                     break
                 qn += 1
                 if qn > p.max_quiescent:
-                    self.res.inconclusive.append("history %s did not finish within %d quiescent points" % (self.label, p.max_quiescent))
+                    self.res.inconclusive.append("history %s did not finish within %d quiescent points; held=%r inflight=%r live=%r term=%r out=%d left=%r tail=%r log=%r" % (
+                        self.label, p.max_quiescent, [(c.role, (c.pending or {}).get("c")) for c in sim.held], sim.inflight and sim.inflight.role,
+                        [(sim.procs[x]["role"]) for x in sim.live_injectors()], self.term_pending, len(sim.outstanding), dict(list(sim.scan().items())[:4]),
+                        [(e["kind"], e.get("c"), e.get("sig"), e.get("T")) for e in sim.events[-14:]], sim.dlog[-200:]))
                     break
                 T = ent.get("T", 0)
                 # injectors still have held calls: let one step happen
